@@ -166,3 +166,96 @@ def qubit_axes(ctx) -> None:
                f"{kind} entries select level 1 of exactly the qubit(s) they are stored under (exponent sums ≡ i, j − 1), "
                f"over every qubit{' and every pair i < j, mirrored' if kind == 'correlation' else ''}; {want_red} over {want_base}"
                if bad is None else f"{fn}: {bad} — the reported {kind} belongs to other atoms or to another level")
+
+
+# ------------------------------------------------------------------ diagonal builders (state vector and Lindbladian)
+import ast as _ast
+
+from . import util as _util
+
+
+def _ast_term(n):
+    if isinstance(n, _ast.Constant):
+        return ("const", n.value)
+    if isinstance(n, _ast.Name):
+        return ("name", n.id)
+    if isinstance(n, _ast.Attribute):
+        return ("name", _util.text(n))
+    if isinstance(n, _ast.UnaryOp) and isinstance(n.op, _ast.USub):
+        return ("un", "neg", _ast_term(n.operand))
+    if isinstance(n, _ast.BinOp):
+        op = {_ast.Add: "Add", _ast.Sub: "Sub", _ast.Mult: "Mult", _ast.Pow: "Pow", _ast.Div: "Div"}.get(type(n.op))
+        if op:
+            return ("bin", op, _ast_term(n.left), _ast_term(n.right))
+    return ("name", _util.text(n))
+
+
+def diagonal_builders(ctx) -> None:
+    """`_create_diagonal` of RydbergHamiltonian and of RydbergLindbladian (sibling implementations of Σ_{i<j} U_ij n_i n_j,
+    the first also −Σ_i Δ_i n_i): both loop over every i and every j > i *unconditionally* (no if / break / continue:
+    a zero coefficient, e.g. from the SLM mask or the cut-off, must not end the row), add `interaction_matrix[i, j]` to the
+    slice in which qubits i and j are both in level 1 (exponent sums ≡ i and j − 1), and agree with each other."""
+    prog = ctx.prog
+    for cq, want_det in (("emu_sv.hamiltonian.RydbergHamiltonian", True), ("emu_sv.lindblad_operator.RydbergLindbladian", False)):
+        K = prog.cls(cq)
+        f = K.methods["_create_diagonal"]
+        loops = [n for n in _ast.walk(f.node) if isinstance(n, _ast.For)]
+        bad = None
+        if len(loops) != 2:
+            bad = f"{len(loops)} loops (two expected: i, and j > i)"
+        else:
+            outer, inner = loops[0], loops[1]
+            i, j = _util.text(outer.target), _util.text(inner.target)
+            rng_o = _util.text(outer.iter).replace(" ", "")
+            rng_i = _util.text(inner.iter).replace(" ", "")
+            if rng_o not in ("range(self.nqubits)", "range(0,self.nqubits)"):
+                bad = f"the outer loop runs over {rng_o}"
+            elif rng_i != f"range({i}+1,self.nqubits)":
+                bad = f"the inner loop runs over {rng_i}, not every j > {i}"
+            ctrl = [n for n in _ast.walk(outer) if isinstance(n, (_ast.If, _ast.Break, _ast.Continue, _ast.Return, _ast.IfExp, _ast.While, _ast.Try))]
+            if bad is None and ctrl:
+                bad = (f"the accumulation is conditional ({type(ctrl[0]).__name__.lower()} at line {ctrl[0].lineno}): a zero "
+                       f"coefficient ends or skips part of a row, later pairs lose their interaction")
+            augs = [n for n in _ast.walk(outer) if isinstance(n, _ast.AugAssign)]
+            inter = [a for a in augs if isinstance(a.op, _ast.Add) and _util.text(a.value).replace(" ", "") in
+                     (f"self.interaction_matrix[{i},{j}]", f"self.interaction_matrix[{j},{i}]")]
+            det = [a for a in augs if isinstance(a.op, _ast.Sub) and _util.text(a.value).replace(" ", "") == f"self.deltas[{i}]"]
+            if bad is None and (len(inter) != 1 or not any(inter[0] is n for n in _ast.walk(inner))):
+                bad = "the pair term is not `+= self.interaction_matrix[i, j]` inside the inner loop"
+            if bad is None and want_det and (len(det) != 1 or any(det[0] is n for n in _ast.walk(inner))):
+                bad = "the detuning term is not `-= self.deltas[i]` once per i"
+            if bad is None and len(augs) != (2 if want_det else 1):
+                bad = f"{len(augs)} accumulating statements"
+            # qubit axes of the two views
+            if bad is None:
+                views = [n for n in _ast.walk(outer) if isinstance(n, _ast.Call) and isinstance(n.func, _ast.Attribute) and n.func.attr == "view"]
+                for v in views:
+                    dims = [_ast_term(a) for a in v.args]
+                    k = [m for m, d in enumerate(dims) if d == ("const", 2)]
+                    if len(k) != 1:
+                        bad = f"view{tuple(_util.text(a) for a in v.args)} has no single qubit axis"
+                        break
+                    pos = num(0)
+                    for d in dims[:k[0]]:
+                        e = _exp_of(d)
+                        if e is None or e == "?":
+                            bad = f"dimension {show(d)} in front of the qubit axis is not a power of two"
+                            break
+                        pos = add(pos, e)
+                    if bad:
+                        break
+                    in_inner = any(v is n for n in _ast.walk(inner))
+                    want = sub(("name", j), num(1)) if in_inner else ("name", i)
+                    if not rat_equal(pos, want):
+                        bad = f"view{tuple(_util.text(a) for a in v.args)} puts the qubit axis at position {show(pos)}, not {show(want)}"
+                        break
+                subs = [n for n in _ast.walk(outer) if isinstance(n, _ast.Subscript) and isinstance(n.slice, _ast.Tuple) and
+                        any(isinstance(e, _ast.Constant) and isinstance(e.value, int) for e in n.slice.elts) and
+                        "interaction_matrix" not in _util.text(n.value)]
+                if bad is None and any(e.value != 1 for s_ in subs for e in s_.slice.elts if isinstance(e, _ast.Constant) and isinstance(e.value, int)):
+                    bad = "a slice selects a level other than 1"
+                if bad is None and len(subs) < 2:
+                    bad = "the level-1 slices of qubit i and qubit j were not found"
+        ctx.ob("HAM-form", f"diagonal builder {K.name}", f.loc(), bad is None,
+               f"Σ_(i<j) U_ij n_i n_j{' − Σ_i Δ_i n_i' if want_det else ''}: every pair, unconditionally, on the slice with both qubits in level 1"
+               if bad is None else f"{K.name}._create_diagonal: {bad}")
